@@ -274,6 +274,11 @@ Proof.
     apply (run_rating_accepted cand ceqb); assumption.
 Qed.
 
+Lemma one_shot_valid_run_eq : forall r (p : profile) k m tb,
+  one_shot_params r p = Some (k, m, tb) -> one_shot_valid r p ->
+  forall s, run_rule r p s = run_one_shot k m tb p s.
+Proof. intros r p k m tb Hp Hv. exact (proj2 (one_shot_valid_run r p k m tb Hp Hv)). Qed.
+
 Definition tbl (t : option (cset * ranking)) : list (cset * ranking) :=
   match t with Some x => [x] | None => [] end.
 
